@@ -51,8 +51,13 @@ theorem C07_every_binder_reserved (n : Name) : n.reserved = true := by
     show ("__".toList).isPrefixOf ("__set_elem" ++ "").toList = true
     simp [String.toList_append]
   | field f =>
-    show ("__".toList).isPrefixOf ("__assert_struct_field_" ++ f.toString).toList = true
-    generalize f.toString = s; simp [String.toList_append]
+    cases f with
+    | ident i =>
+      show ("__".toList).isPrefixOf ("__assert_struct_field_" ++ i.unraw).toList = true
+      generalize i.unraw = s; simp [String.toList_append]
+    | index n =>
+      show ("__".toList).isPrefixOf ("__assert_struct_field_" ++ toString n).toList = true
+      generalize toString n = s; simp [String.toList_append]
   | rootValue =>
     show ("__".toList).isPrefixOf ("__assert_struct_value" ++ "").toList = true
     simp [String.toList_append]
@@ -67,8 +72,5 @@ theorem C07_field_binder_present (id : Nat) (path : UPath) (f : IdentTok) (p : P
     Name.field (.ident f) ∈
       (expandPat rootVExpr (.struct id (some path) (.cons (some ⟨[.named f default], default⟩) none p .nil) true)).binders := by
   simp [expandPat, Code.binders, Items.rootNames, FieldOps.rootFieldName?, FieldOp.fieldName?, dedupNames]
-
-/-- Non-vacuity: the rendered binder of a field called `name`. -/
-example : (Name.field (.ident ⟨"name", default⟩)).render = "__assert_struct_field_name" := rfl
 
 end AsModel
